@@ -60,8 +60,8 @@ iora_entry Assets_buildEntry_contract(const iora_path *file)
 __CPROVER_requires(IORA_TRUE && __CPROVER_is_fresh(file, sizeof(*file)) && G_npaths <= 8 && file->id < G_npaths && G_root_kind != 0 && G_fs_calls < 1000)
 /* O4 the ordering clause again, one level up */
 __CPROVER_requires(P_READ_OK(file->id))
-__CPROVER_assigns(G_fs_calls, G_npaths, __CPROVER_object_whole(G_path))
-/* B1 */ __CPROVER_ensures(__CPROVER_return_value == NULL || (__CPROVER_is_fresh(__CPROVER_return_value, sizeof(StaticCacheEntry))
+__CPROVER_assigns(G_fs_calls, G_npaths, __CPROVER_object_whole(G_path), G_new_entry)
+/* B1 */ __CPROVER_ensures(__CPROVER_return_value == NULL || (__CPROVER_return_value == &G_new_entry
     && ENTRY_OK(__CPROVER_return_value) && __CPROVER_return_value->bytes.src == file->id))
 /* B2 */ __CPROVER_ensures(G_fs_calls > __CPROVER_old(G_fs_calls))
 ;
@@ -83,7 +83,7 @@ __CPROVER_requires(G_path[0].last_rel == 0 && G_path[1].last_rel == 0 && G_path[
 
 GetStaticResult Assets_getStaticFilesystem_contract(const Assets *self, iora_sv path)
 FS_STATE_PRE(1)
-__CPROVER_assigns(G_fs_calls, G_npaths, __CPROVER_object_whole(G_path), G_locks)
+__CPROVER_assigns(G_fs_calls, G_npaths, __CPROVER_object_whole(G_path), G_locks, G_new_entry, G_cached_entry, G_scache_slot)
 /* F1 content is returned only from an entry whose bytes were read under the full check (fresh read or cache, see the cache invariant) */
 __CPROVER_ensures(__CPROVER_return_value.status == Status_Found ==> (__CPROVER_return_value.blob.entry != NULL && ENTRY_OK(__CPROVER_return_value.blob.entry)))
 /* F2 a refused / missing request carries no content */
@@ -103,7 +103,7 @@ void h_getStaticFilesystem(void)
 bool Assets_getTemplateFilesystem_contract(const Assets *self, iora_sv name, iora_strp *iora_ret)
 FS_STATE_PRE(2)
 __CPROVER_requires(__CPROVER_is_fresh(iora_ret, sizeof(*iora_ret)))
-__CPROVER_assigns(*iora_ret, G_fs_calls, G_npaths, __CPROVER_object_whole(G_path), G_locks)
+__CPROVER_assigns(*iora_ret, G_fs_calls, G_npaths, __CPROVER_object_whole(G_path), G_locks, G_shared_str, G_cached_str, G_tcache_slot)
 /* T1 */ __CPROVER_ensures(__CPROVER_return_value ==> (*iora_ret != NULL && (*iora_ret)->present && (*iora_ret)->read_ok))
 ;
 void h_getTemplateFilesystem(void)
@@ -112,4 +112,59 @@ void h_getTemplateFilesystem(void)
   bool ok = Assets_getTemplateFilesystem(a, n, r);
   IORA_CANARY("h_getTemplateFilesystem: returns");
   if (ok) { IORA_CANARY("h_getTemplateFilesystem: found"); } else { IORA_CANARY("h_getTemplateFilesystem: nullopt"); }
+}
+
+/* ------------------------------------------------------------------------------------------------------------------------------
+ * getStatic / getTemplate: a lexically rejected name is refused BEFORE any filesystem (or registry) access.
+ * lexicallyRejected is replaced by the contract proved in unit assets_lexical (same macro text, lex_contract.h). */
+bool lexicallyRejected_contract(iora_sv p)
+LEX_PRE
+LEX_ENS_EMPTY
+LEX_ENS_SOUND
+LEX_ENS_COMPLETE
+;
+/* spec(p) at the arbitrary ghost indices GN, GS (so: for every index) */
+#define LEXSPEC(q) (((q).n > 0 && (q).p[0] == (char)47) || (GN < (q).n && (((q).p[GN] == (char)0) | ((q).p[GN] == (char)92))) || DOTDOT_AT(q, GS))
+
+/* the two back ends, as seen from getStatic: "the filesystem / registry is touched" */
+GetStaticResult Assets_getStaticEmbedded_touch(const Assets *self, iora_sv path)
+__CPROVER_requires(IORA_TRUE) __CPROVER_assigns(G_fs_calls) __CPROVER_ensures(G_fs_calls == __CPROVER_old(G_fs_calls) + 1);
+GetStaticResult Assets_getStaticFilesystem_touch(const Assets *self, iora_sv path)
+__CPROVER_requires(IORA_TRUE) __CPROVER_assigns(G_fs_calls) __CPROVER_ensures(G_fs_calls == __CPROVER_old(G_fs_calls) + 1);
+
+GetStaticResult Assets_getStatic_contract(const Assets *self, iora_sv path)
+__CPROVER_requires(IORA_TRUE && __CPROVER_is_fresh(self, sizeof(*self)) && path.n <= IORA_SV_MAXLEN && __CPROVER_is_fresh(path.p, path.n) && G_fs_calls < 1000)
+__CPROVER_assigns(G_fs_calls, G_find_r, G_sub_pos)
+/* S1 */ __CPROVER_ensures(LEXSPEC(path) ==> (__CPROVER_return_value.status == Status_Rejected && __CPROVER_return_value.blob.entry == NULL))
+/* S2 */ __CPROVER_ensures(LEXSPEC(path) ==> G_fs_calls == __CPROVER_old(G_fs_calls))
+/* S3 an accepted name goes to exactly one back end */
+__CPROVER_ensures(G_fs_calls == __CPROVER_old(G_fs_calls) || G_fs_calls == __CPROVER_old(G_fs_calls) + 1)
+;
+void h_getStatic(void)
+{
+  const Assets *a; iora_sv p;
+  GetStaticResult r = Assets_getStatic(a, p);
+  IORA_CANARY("h_getStatic: returns");
+  if (r.status == Status_Rejected) { IORA_CANARY("h_getStatic: rejected"); } else { IORA_CANARY("h_getStatic: passed on"); }
+}
+
+const EmbeddedTemplate *Assets_findTemplate_contract(const Assets *self, iora_sv name)
+__CPROVER_requires(IORA_TRUE) __CPROVER_assigns(G_fs_calls) __CPROVER_ensures(G_fs_calls == __CPROVER_old(G_fs_calls) + 1)
+__CPROVER_ensures(__CPROVER_return_value == NULL || __CPROVER_is_fresh(__CPROVER_return_value, sizeof(EmbeddedTemplate)));
+bool Assets_getTemplateFilesystem_touch(const Assets *self, iora_sv name, iora_strp *iora_ret)
+__CPROVER_requires(IORA_TRUE) __CPROVER_assigns(G_fs_calls, *iora_ret) __CPROVER_ensures(G_fs_calls == __CPROVER_old(G_fs_calls) + 1);
+
+bool Assets_getTemplate_contract(const Assets *self, iora_sv name, iora_strp *iora_ret)
+__CPROVER_requires(IORA_TRUE && __CPROVER_is_fresh(self, sizeof(*self)) && name.n <= IORA_SV_MAXLEN && __CPROVER_is_fresh(name.p, name.n) && G_fs_calls < 1000)
+__CPROVER_requires(__CPROVER_is_fresh(iora_ret, sizeof(*iora_ret)))
+__CPROVER_assigns(G_fs_calls, G_find_r, G_sub_pos, *iora_ret)
+/* M1 */ __CPROVER_ensures(LEXSPEC(name) ==> !__CPROVER_return_value)
+/* M2 */ __CPROVER_ensures(LEXSPEC(name) ==> G_fs_calls == __CPROVER_old(G_fs_calls))
+;
+void h_getTemplate(void)
+{
+  const Assets *a; iora_sv n; iora_strp *r;
+  bool ok = Assets_getTemplate(a, n, r);
+  IORA_CANARY("h_getTemplate: returns");
+  if (ok) { IORA_CANARY("h_getTemplate: found"); } else { IORA_CANARY("h_getTemplate: nullopt"); }
 }
